@@ -158,6 +158,13 @@ func init() {
 		p.Width = 3
 		p.ScalarBias = 35
 	})
+	// names that differ only by letter case, Unicode folding, normalisation, width or a trailing character: different
+	// members all the same
+	near := gen.Hostile().With(func(p *gen.Profile) {
+		p.Keys = gen.NearMissKeys
+		p.Width = 4
+		p.ScalarBias = 45
+	})
 	core.Register(&core.Prop{
 		ID:    "C07",
 		Title: "MergeMergePatches composes two merge patches (v5)",
@@ -203,6 +210,16 @@ func init() {
 				}
 				docs := []string{`{}`, docWithEveryKey(c, prof, mustParse(p1T), mustParse(p2T)), prof.Any(c.R), prof.Object(c.R, 3)}
 				judgeCompose(c, v5Compose, p1T, p2T, docs)
+			}},
+			{Name: "names-that-differ-by-case-folding-or-normalisation", Count: n(12000, 300000), Run: func(c *core.Ctx, idx int) {
+				p1T := near.Object(c.R, 1+c.R.Intn(2))
+				p2T := near.Object(c.R, 1+c.R.Intn(2))
+				if c.R.Intn(3) == 0 {
+					p2T = genMergePatchFor(c.R, near, mustParse(p1T))
+				}
+				docs := []string{`{}`, docWithEveryKey(c, near, mustParse(p1T), mustParse(p2T)), near.Object(c.R, 2)}
+				judgeCompose(c, v5Compose, p1T, p2T, docs)
+				c.Count("near-miss-names:cases")
 			}},
 		},
 	})
